@@ -313,6 +313,16 @@ def _canon_numpy_alias(tree):
     return tree
 
 
+def _kw_to_pos(c, fn):
+    ps = list(fn.params)
+    while len(c.args) < len(ps):
+        nxt = [k for k in c.keywords if k.arg == ps[len(c.args)]]
+        if len(nxt) != 1:
+            break
+        c.keywords.remove(nxt[0])
+        c.args.append(nxt[0].value)
+
+
 class _InlineXp(ast.NodeTransformer):
     """`device.xp.clip(..)` / `backend.get_array_module(x).zeros(..)` used without a local name are read like `xp.clip(..)` / `xp.zeros(..)`:
     the array module (numpy on the analysed CPU build) has one spelling whether or not it is bound to a local first"""
@@ -360,6 +370,36 @@ class Model:
         self._digest = hashlib.sha256()
         self._load()
         self._index()
+        self._canon_keywords()
+
+    def _canon_keywords(self):
+        """`prod(shape=s)` is read as `prod(s)`: at every call that resolves to a module-level function of the package (no *args / **kwargs), keyword
+        arguments that continue the positional ones in parameter order are moved into the positional list -- one spelling per call"""
+        for f in list(self.funcs.values()):
+            for c in ast.walk(f.node):
+                if not isinstance(c, ast.Call) or not c.keywords or any(isinstance(a, ast.Starred) for a in c.args) or any(k.arg is None for k in c.keywords):
+                    continue
+                try:
+                    tgt = self.resolve_call(f, c)
+                except Exception:
+                    continue
+                if not tgt or tgt[0] != "repo":
+                    continue
+                fn = tgt[1]
+                if not isinstance(fn, Func) or fn.cls is not None or fn.node.args.vararg is not None or fn.node.args.kwarg is not None or fn.node.args.posonlyargs:
+                    continue
+                _kw_to_pos(c, fn)
+        # module-level statements (registries filled at import time): bare-name calls of functions of the same module
+        for mn, m in self.mods.items():
+            for st in m.tree.body:
+                if isinstance(st, (ast.FunctionDef, ast.AsyncFunctionDef, ast.ClassDef)):
+                    continue
+                for c in ast.walk(st):
+                    if isinstance(c, ast.Call) and c.keywords and isinstance(c.func, ast.Name) and not any(isinstance(a, ast.Starred) for a in c.args) \
+                            and not any(k.arg is None for k in c.keywords):
+                        fn = self.funcs.get(mn + "." + c.func.id)
+                        if isinstance(fn, Func) and fn.cls is None and fn.node.args.vararg is None and fn.node.args.kwarg is None and not fn.node.args.posonlyargs:
+                            _kw_to_pos(c, fn)
 
     # -------------------------------------------------------------- loading
     def _load(self):
